@@ -140,7 +140,9 @@ def _gate(h, k, model_cls):
         return {"target": "verif_replays:gate_replay", "args": [[float(ev(a_)) for a_ in alphas], int(ev(n))], "kwargs": {"pi_method": nm_}, "check": "result['ok']"}
 
     h.ensures(f"max_over_levels[k={k}]", mx == spec_max, replay=rp)
-    kind, env2 = h.slice(f"{CL}.get_estimates", first_assign="n_reporting_expected_units", until_raise="ModelNotEnoughSubunitsException", env={"self": self, "minimum_reporting_units_max": mx, "reporting_units": _Frame0(n), "unexpected_units": _Opaque(), "nonreporting_units": _Frame0(h.int("n_nonrep")), "non_modeled_units": []})
+    # (every local the first slice left behind is visible to the second one -- e.g. the loop variable of the max loop, which
+    # holds the minimum of the LAST requested level)
+    kind, env2 = h.slice(f"{CL}.get_estimates", first_assign="n_reporting_expected_units", until_raise="ModelNotEnoughSubunitsException", env={**{k_: v_ for k_, v_ in env.items() if k_ not in ("self",)}, "self": self, "minimum_reporting_units_max": mx, "reporting_units": _Frame0(n), "unexpected_units": _Opaque(), "nonreporting_units": _Frame0(h.int("n_nonrep")), "non_modeled_units": []})
     too_few = n < spec_max
     if kind == "raise":
         h.ensures(f"raises_dedicated_error[k={k}]", env2.clsname == "ModelNotEnoughSubunitsException")
@@ -214,7 +216,7 @@ def _gate_any_number_of_levels(h, model_cls):
     j = z3.Int("j!post")
     is_max = z3.And(z3.ForAll([j], z3.Implies(z3.And(j >= 0, j < A.n), M >= minf(j))), z3.Or(z3.And(A.n == 0, M == 0), z3.Exists([j], z3.And(j >= 0, j < A.n, M == minf(j)))), M >= 0)
     h.ensures("after_the_loop_it_is_the_largest_minimum", is_max)
-    kind, env2 = h.slice(f"{CL}.get_estimates", first_assign="n_reporting_expected_units", until_raise="ModelNotEnoughSubunitsException", env={"self": self, "minimum_reporting_units_max": mx, "reporting_units": _Frame0(n), "unexpected_units": _Opaque(), "nonreporting_units": _Frame0(h.int("n_nonrep")), "non_modeled_units": []})
+    kind, env2 = h.slice(f"{CL}.get_estimates", first_assign="n_reporting_expected_units", until_raise="ModelNotEnoughSubunitsException", env={**{k_: v_ for k_, v_ in env.items() if k_ not in ("self",)}, "self": self, "minimum_reporting_units_max": mx, "reporting_units": _Frame0(n), "unexpected_units": _Opaque(), "nonreporting_units": _Frame0(h.int("n_nonrep")), "non_modeled_units": []})
     too_few = z3.ToReal(n.t) < M
     if kind == "raise":
         h.ensures("raises_dedicated_error", env2.clsname == "ModelNotEnoughSubunitsException")
